@@ -481,8 +481,12 @@ def search_counterexample(run, unit: str, failed: list[str]):
     if not res:
         return None
     for r in res:
+        # only obligations some property listens to count (the others are by-products nobody claims, e.g. the path text seen by a function group)
+        listened = {p for spec in list(GROUPS.values()) + list(THOROUGH_GROUPS.values()) for g, ps in spec if g == r["group"] for p in ps}
         for f in r["failures"]:
             from . import findings
+            if not any(f["obligation"].startswith(p) for p in listened):
+                continue
             v = {"unit": f["obligation"].rsplit(".", 1)[0], "obligations": [f["obligation"]], "features": f["features"]}
             if findings.match_open(None, v):
                 continue
